@@ -1,5 +1,6 @@
 """C13 — Every child-schema instance is a valid parent-schema instance."""
 import itertools
+import os
 import json
 from typing import List, Literal, Optional, Set, Union
 
@@ -293,6 +294,80 @@ def check_sticky(pname, ptype, cname, ctype, how, rec):
              sample=dict(case, outcome="refused at first load and at every later lookup"))
 
 
+_REC_SRC = """
+from __future__ import annotations
+from typing import Optional
+from metador_core.schema import MetadataSchema
+from metador_core.schema.types import Int, Str
+
+
+class Node(MetadataSchema):
+    class Plugin:
+        name = "vt.rec-node-TAG"
+        version = (0, 1, 0)
+
+    v: Int
+
+
+class Holder(MetadataSchema):
+    class Plugin:
+        name = "vt.rec-holder-TAG"
+        version = (0, 1, 0)
+
+    a: Node
+
+
+class BadNode(Node):
+    class Plugin:
+        name = "vt.rec-badnode-TAG"
+        version = (0, 1, 0)
+
+    v: Str  # undeclared override that is no subtype
+    back: Optional[BadHolder]
+
+
+class BadHolder(Holder):
+    class Plugin:
+        name = "vt.rec-badholder-TAG"
+        version = (0, 1, 0)
+
+    a: BadNode  # narrows Node -> BadNode, but BadNode is no valid Node
+"""
+_rec_n = [0]
+
+
+def check_recursive_siblings(rec):
+    """Two mutually referencing child schemas, one with an undeclared incompatible override: BOTH are refused, in either
+    registration order and also after the other one was refused before (the caller catches that error)."""
+    import sys
+    import types
+
+    from metador_core.plugin.util import register_in_group
+    from metador_core.plugins import schemas
+
+    for order in (("BadHolder",), ("BadNode", "BadHolder"), ("BadNode", "BadNode", "BadHolder")):
+        _rec_n[0] += 1
+        tag = f"{os.getpid()}x{_rec_n[0]}"
+        mod = types.ModuleType(f"vt_c13_rec_{tag}")
+        sys.modules[mod.__name__] = mod
+        exec(compile(_REC_SRC.replace("TAG", tag), mod.__name__, "exec"), mod.__dict__)  # noqa: S102 - fixed source above
+        case = dict(kind="recursive", order=list(order))
+        mod.BadNode.update_forward_refs()
+        register_in_group(schemas, mod.Node, violently=True)
+        register_in_group(schemas, mod.Holder, violently=True)
+        for i, name in enumerate(order):
+            try:
+                register_in_group(schemas, getattr(mod, name), violently=True)
+            except (TypeError, ValueError):
+                continue
+            o = mod.BadHolder.parse_obj({"a": {"v": "text"}}) if name == "BadHolder" else None
+            rec.fail("C13:accepted-after-sibling-refused" if i else "C13:recursive-bad-schema-accepted", case,
+                     f"{name} accepted (registration order {list(order)})" + (f"; it accepts and dumps {bytes(o)!r}, which Holder rejects" if o else ""),
+                     "refused: its field type BadNode widens Node.v without declaring it")
+            break
+        rec.case(nt_key=["recursive", list(order)], classes=["recursive_siblings"], sample=case)
+
+
 def _find_witness_by_types(ptype, ctype, shape):
     """For a refused pair: is there a corpus value the child type accepts and the parent type rejects?"""
     try:
@@ -401,6 +476,7 @@ def run_shard(shard, tier, seed, rec):
         rec.notes.append(f"pool of {len(names)} field types, {len(CORPUS)} corpus values, {len(SHAPES)} chain shapes")
     elif k == "extra":
         check_extra_rule(rec)
+        check_recursive_siblings(rec)
     elif k == "sticky":
         P = pool()
         names = sorted(P)
@@ -464,6 +540,8 @@ def replay(rp, rec):
             check_installed(case["schema"], case["version"], case["recipe"], rec)
         elif case.get("kind") == "extra":
             check_extra_rule(rec)
+        elif case.get("kind") == "recursive":
+            check_recursive_siblings(rec)
         elif case.get("kind") == "sticky":
             P = pool()
             check_sticky(case["parent"], P[case["parent"]], case["child"], P[case["child"]], case["how"], rec)
